@@ -119,3 +119,29 @@ def unhandled_sections(records) -> list[str]:
         if msg.startswith(pre) and msg.endswith("'"):
             out.append(msg[len(pre):-1])
     return out
+
+
+def reports_match(records, texts: list[str], logger_prefix: str = "chartparse") -> str | None:
+    """Wording-independent accounting of log reports: exactly one record per reported text.
+
+    ``records`` are the captured records (already restricted by the caller to the relevant kind),
+    ``texts`` the multiset of strings that must each be reported once.  Returns None when the
+    accounting works out, else an explanation.  A record "reports" a text when its formatted message
+    contains the text (blank texts are only counted).  Robust against rewording of the messages."""
+    if len(records) != len(texts):
+        return f"{len(texts)} reports expected, {len(records)} log records"
+    msgs = [r.getMessage() for r in records]
+    from collections import Counter
+    for t, mult in Counter(texts).items():
+        if not t.strip():
+            continue
+        n = sum(1 for m in msgs if t in m)
+        if n < mult:
+            return f"{t!r} should be reported {mult}x but only {n} record(s) mention it"
+    return None
+
+
+def records_of(records, logger_name: str):
+    import logging as _l
+    return [r for r in records if r.name == logger_name and r.levelno >= _l.WARNING]
+
